@@ -22,8 +22,11 @@ pub fn unpack_date(pascal_date: [u8;2]) -> chrono::NaiveDateTime {
     let year = 1900 + (date >> 9); // choose to stay in the 20th century (Y2K bug)
     let month = date & 15;
     let day = (date >> 4) & 31;
-    return chrono::NaiveDate::from_ymd_opt(year as i32,month as u32,day as u32).unwrap()
-        .and_hms_opt(0, 0, 0).unwrap();
+    // an impossible date (e.g. month 0 in a damaged directory) is mapped to the start of the epoch
+    return match chrono::NaiveDate::from_ymd_opt(year as i32,month as u32,day as u32) {
+        Some(date) => date,
+        None => chrono::NaiveDate::from_ymd_opt(1900,1,1).unwrap()
+    }.and_hms_opt(0, 0, 0).unwrap();
 }
 
 /// This will accept lower case; case will be automatically converted as appropriate
